@@ -218,3 +218,23 @@ pub mod mm {
         pub limits: std::collections::BTreeMap<String, super::m::Leaf>,
     }
 }
+
+/// Outside the fixed family (observation only, never a verdict): validated fields inside an
+/// enum payload. The path recorder is not carried through `deserialize_enum`.
+pub mod ge {
+    use garde::Validate;
+    use serde::Deserialize;
+    #[derive(Debug, Deserialize, Validate)]
+    pub enum Shape {
+        Circle {
+            #[garde(range(min = 1))]
+            radius: i64,
+        },
+        Named(#[garde(length(min = 2))] String),
+    }
+    #[derive(Debug, Deserialize, Validate)]
+    pub struct EnumRoot {
+        #[garde(dive)]
+        pub shape: Shape,
+    }
+}
